@@ -2,7 +2,7 @@
 from __future__ import annotations
 
 import vf
-from circ_props import BUILD, run_histories, replay_case
+from circ_props import BUILD, run_histories, replay_case, fold_stress
 
 WANT = {'views'}
 
@@ -32,12 +32,21 @@ def run(ctx: vf.Ctx):
     ctx.rule = ('random editing histories (1..%d calls, same alphabet as C04) on the real Circuit; after every call the grid, '
                 'the dependency view (next/prev/front/rear/first_on/last_on), the counters and iteration are recomputed from '
                 'the grid read through the public API and compared with what the object reports, including the private '
-                '_dag/_front/_rear/_gate_info/_graph_info; plus step-by-step comparison of the grid with the extracted Coq model; '
+                '_dag/_front/_rear/_gate_info/_graph_info, and with the values the extracted Coq view functions (coq/circuit/CViews.v) '
+                'compute from the same grid; plus step-by-step comparison of the grid with the extracted Coq model (fold included) and a '
+                'fold-stress stream (views after every straighten / fold and after follow-up appends); '
                 'non-trivial = history with at least one successful state-changing call' % ctx.n(30, 40))
     ctx.assumptions += ['calls are type-correct (no TypeError stream)']
     ctx.trusted = ['Coq 8.16.1 kernel', 'ExtrOcamlBasic extraction + coq/extract/circuit_driver.ml',
-                   'harness/circ_common.py check_views (independent recomputation of every view from the grid)']
+                   'harness/circ_common.py check_views (independent recomputation of every view from the grid) and impl_views '
+                   '(reading the private fields)']
     run_histories(ctx, WANT, ctx.n(700, 25000), ctx.n(30, 40), classify)
+    fold_stress(ctx, WANT, classify)
+    ctx.cov['editors_with_invariant_theorem'] = 22
+    ctx.cov['views_defined_in_coq_and_compared'] = ['_front/first_on', '_rear/last_on', 'front', 'rear', '_dag', 'next', 'prev',
+                                                   'num_operations', '_gate_info/gate_counts', '_graph_info', 'active_qudits', 'depth',
+                                                   'dag_iteration']
+    ctx.cov['views_oracle_only'] = ['num_params', 'coupling_graph']
     if ctx.tier == 'thorough':
         exhaustive_short(ctx)
 
